@@ -146,6 +146,120 @@ theorem C06_walk_recovers_laid_block (c : Cfg) (hm : 0 < c.metaSz) (cells : List
         simp only [List.length_cons]
         congr 1 <;> omega
 
+/-! ### the recovery scan of one file -/
+
+/-- a block as it lies in a file: where it starts, whose it is, what was written into it (at least one entry) -/
+structure LBlock where
+  off : Nat
+  topic : Topic
+  first : Pay
+  rest : List Pay
+
+def LBlock.es (b : LBlock) : List Pay := b.first :: b.rest
+/-- the limit recovery derives for the block: from its first entry -/
+def LBlock.lim (c : Cfg) (b : LBlock) : Nat := blockLimitOf c ⟨b.off, b.topic, b.first⟩
+
+/-- what recovering one block does to the scan state -/
+def blockStep (c : Cfg) (f : Nat) (s : ScanSt) (b : LBlock) : ScanSt :=
+  { nextId := s.nextId + 1,
+    trk := (s.trk.registerBlock s.nextId f).addBlockToFileState f,
+    inst := appendBlockToChain s.inst b.topic
+      { id := s.nextId, file := f, off := b.off, limit := b.lim c, used := totalRaw c b.es },
+    perTopic := s.perTopic.insert b.topic (((s.perTopic.get? b.topic).getD []) ++ [b.es.length]) }
+
+/-- the blocks `bs` lie back to back in the file from offset `off` (each sized by its first entry, its entries back
+to back from its start and followed by an unwritten position or too little room for a header), and what follows
+them reads as unallocated space (or the file ends) -/
+def FileLaid (c : Cfg) (cells : List Cell) : Nat → List LBlock → Prop
+  | off, [] => off + c.blockSize ≤ c.fileSize → unitKind c cells off = .zero
+  | off, b :: r =>
+    b.off = off ∧ off + c.blockSize ≤ c.fileSize ∧ b.lim c ≤ c.fileSize - off ∧
+    (∃ x, cellAt cells off = some x ∧ x.pay = b.first ∧ x.topic = b.topic) ∧
+    Laid c cells off b.es ∧ totalRaw c b.es ≤ b.lim c ∧
+    (cellAt cells (off + totalRaw c b.es) = none ∨ totalRaw c b.es + c.metaSz > b.lim c) ∧
+    FileLaid c cells (off + b.lim c) r
+
+theorem length_le_of_totalRaw (c : Cfg) (es : List Pay) : es.length * c.metaSz ≤ totalRaw c es := by
+  induction es with
+  | nil => simp [totalRaw]
+  | cons p r ih =>
+    have : totalRaw c (p :: r) = c.metaSz + p.len + totalRaw c r := by simp [totalRaw]
+    rw [this, List.length_cons, Nat.succ_mul]; omega
+
+/-- **The recovery scan recovers every block of a well-formed file.**  If blocks lie back to back in a file as
+described by `FileLaid`, the scan of `startup_chore` over that file registers exactly those blocks, in file order,
+with consecutive ids, each with the limit derived from its first entry, `used` = the extent of its entries, and its
+entry count - and then stops.  (That friendly writer histories produce such files is tied by the correspondence
+runs, not proved.) -/
+theorem C06_scan_recovers_laid_file (c : Cfg) (hm : 0 < c.metaSz) (f : Nat) (cells : List Cell) (bs : List LBlock) :
+    ∀ (off fuel : Nat) (s : ScanSt), FileLaid c cells off bs → bs.length < fuel →
+      scanFile c f cells fuel off s = bs.foldl (blockStep c f) s := by
+  induction bs with
+  | nil =>
+    intro off fuel s hl hf
+    cases fuel with
+    | zero => omega
+    | succ k =>
+      unfold scanFile
+      by_cases h : off + c.blockSize ≤ c.fileSize
+      · simp only [h, if_true]; rw [hl h]; rfl
+      · simp only [h, if_false]; rfl
+  | cons b r ih =>
+    intro off fuel s hl hf
+    obtain ⟨hoff, hroom, hlim, ⟨x, hx, hxp, hxt⟩, hlaid, hfit, hend, hrest⟩ := hl
+    cases fuel with
+    | zero => simp at hf
+    | succ k =>
+      unfold scanFile
+      simp only [hroom, if_true]
+      have hk : unitKind c cells off = .header x := by unfold unitKind; rw [hx]
+      rw [hk]
+      have hxlim : blockLimitOf c x = b.lim c := by
+        unfold LBlock.lim blockLimitOf; rw [hxp]
+      simp only [hxlim]
+      have h1 : ¬ (b.lim c > c.fileSize - off) := by omega
+      simp only [h1, if_false]
+      have hlen : b.es.length < b.lim c / c.metaSz + 1 := by
+        have h2 := length_le_of_totalRaw c b.es
+        have h3 : b.es.length * c.metaSz ≤ b.lim c := Nat.le_trans h2 hfit
+        have := (Nat.le_div_iff_mul_le hm).mpr h3
+        omega
+      have hw := C06_walk_recovers_laid_block c hm cells off (b.lim c) b.es 0 0 (b.lim c / c.metaSz + 1)
+        (by simpa using hlaid) (by simpa using hfit)
+        (by simpa using hend) hlen
+      simp only [Nat.zero_add] at hw
+      rw [hw]
+      have hpos : totalRaw c b.es ≠ 0 := by
+        have : totalRaw c b.es = c.metaSz + b.first.len + totalRaw c b.rest := by simp [totalRaw, LBlock.es]
+        omega
+      simp only [hpos, if_false]
+      rw [ih (off + b.lim c) k _ hrest (by simp only [List.length_cons] at hf; omega)]
+      simp only [List.foldl_cons, blockStep, hxt, hoff]
+
+/-- a file with a one-unit block of three entries (topic 0) and a two-unit block opened by an oversized entry
+(topic 1): the hypothesis of `C06_scan_recovers_laid_file` is met … -/
+def cellsEx : List Cell :=
+  [⟨0, ⟨0, false⟩, ⟨100, 1⟩⟩, ⟨356, ⟨0, false⟩, ⟨0, 0⟩⟩, ⟨612, ⟨0, false⟩, ⟨1000, 3⟩⟩,
+   ⟨4096, ⟨1, false⟩, ⟨5000, 4⟩⟩, ⟨4096 + 5256, ⟨1, false⟩, ⟨10, 5⟩⟩]
+
+example : FileLaid smallCfg cellsEx 0
+    [⟨0, ⟨0, false⟩, ⟨100, 1⟩, [⟨0, 0⟩, ⟨1000, 3⟩]⟩, ⟨4096, ⟨1, false⟩, ⟨5000, 4⟩, [⟨10, 5⟩]⟩] := by
+  refine ⟨rfl, by decide +kernel, by decide +kernel, ⟨⟨0, ⟨0, false⟩, ⟨100, 1⟩⟩, by decide +kernel, rfl, rfl⟩,
+    ⟨⟨⟨0, ⟨0, false⟩, ⟨100, 1⟩⟩, by decide +kernel, rfl⟩, ⟨⟨356, ⟨0, false⟩, ⟨0, 0⟩⟩, by decide +kernel, rfl⟩,
+      ⟨⟨612, ⟨0, false⟩, ⟨1000, 3⟩⟩, by decide +kernel, rfl⟩, trivial⟩,
+    by decide +kernel, Or.inl (by decide +kernel), ?_⟩
+  refine ⟨rfl, by decide +kernel, by decide +kernel, ⟨⟨4096, ⟨1, false⟩, ⟨5000, 4⟩⟩, by decide +kernel, rfl, rfl⟩,
+    ⟨⟨⟨4096, ⟨1, false⟩, ⟨5000, 4⟩⟩, by decide +kernel, rfl⟩, ⟨⟨4096 + 5256, ⟨1, false⟩, ⟨10, 5⟩⟩, by decide +kernel, rfl⟩, trivial⟩,
+    by decide +kernel, Or.inl (by decide +kernel), ?_⟩
+  intro _
+  decide +kernel
+
+/-- … and the scan registers both blocks: three entries for topic 0, two for topic 1, next id 3 -/
+example : (scanFile smallCfg 0 cellsEx 5 0 { trk := {}, inst := { dir := 0, mode := .strict } }).perTopic =
+      [(⟨1, false⟩, [2]), (⟨0, false⟩, [3])] ∧
+    (scanFile smallCfg 0 cellsEx 5 0 { trk := {}, inst := { dir := 0, mode := .strict } }).nextId = 3 := by
+  decide +kernel
+
 /-- three entries laid out from the start of a block, a stale cell further on: the walk returns the three -/
 example : walkBlock smallCfg
     [⟨4096, ⟨0, false⟩, ⟨100, 1⟩⟩, ⟨4096 + 356, ⟨0, false⟩, ⟨0, 0⟩⟩, ⟨4096 + 612, ⟨0, false⟩, ⟨1000, 3⟩⟩,
